@@ -8,7 +8,10 @@
      - a CA-file id names one path; CA ids name root certificates.
    What the standard library says about the material is an oracle (record env): whether
    tls.LoadX509KeyPair accepts two paths, whether x509.MarshalECPrivateKey accepts a key, whether
-   tls.X509KeyPair accepts a (certificate, key) pair, what os.ReadFile + AppendCertsFromPEM find in a CA file.
+   tls.X509KeyPair accepts a (certificate, key) pair, what os.ReadFile + AppendCertsFromPEM find in a CA file,
+   which CERTIFICATE blocks a certificate file holds (a file may hold a chain: the leaf followed by intermediates).
+   A call has no memory: the result is a function of the options and of what the material is NOW (env); a
+   sequence of calls is the map of the single call over the (material, options) pairs (tls_history).
    Opaque settings (verification callback, session cache) are tokens. *)
 From V Require Export Bytes.
 
@@ -33,6 +36,8 @@ Record env := mkEnv {
   load_pair_ok : nat -> nat -> bool;               (* tls.LoadX509KeyPair(certPath, keyPath) succeeds *)
   marshal_ec_ok : nat -> bool;                     (* x509.MarshalECPrivateKey(key) succeeds *)
   x509_pair_ok : nat -> nat -> bool;               (* tls.X509KeyPair(pem cert, pem key) succeeds *)
+  file_chain : nat -> list nat;                    (* the certificates (ids of the DER blocks) of the CERTIFICATE blocks of a certificate
+                                                      file, in file order: what tls.LoadX509KeyPair puts in Certificate.Certificate *)
   read_ca : nat -> option (list nat)               (* os.ReadFile(path): None = error; Some l = the certificates AppendCertsFromPEM adds *)
 }.
 
@@ -43,7 +48,7 @@ Record config := mkCfg {
   c_insecure : bool;
   c_server_name : bytes;
   c_roots : roots;
-  c_certs : list (nat * nat);                      (* Certificates: (leaf certificate id, private key id) *)
+  c_certs : list (list nat * nat);                 (* Certificates: (the DER blocks presented, leaf first; private key id) *)
   c_callback : option nat;
   c_tickets_disabled : bool;
   c_cache : option nat
@@ -56,20 +61,20 @@ Inductive result := Error (e : errkind) | Config (c : config).
 Definition tls12 : nat := 771.                     (* tls.VersionTLS12 = 0x0303 *)
 
 (* `load client cert if specified` *)
-Definition client_certs (e : env) (o : opts) : errkind + list (nat * nat) :=
+Definition client_certs (e : env) (o : opts) : errkind + list (list nat * nat) :=
   match o_cert_file o with
   | Some cf =>
     match o_key_file o with
-    | Some kf => if load_pair_ok e cf kf then inr [(cf, kf)] else inl ECert
+    | Some kf => if load_pair_ok e cf kf then inr [(file_chain e cf, kf)] else inl ECert
     | None => inl ECert                            (* LoadX509KeyPair(cert, empty path): reading the empty path fails *)
     end
   | None =>
     match o_loaded_cert o with
     | Some lc =>
       match o_loaded_key o with
-      | Some (KRsa, k) => if x509_pair_ok e lc k then inr [(lc, k)] else inl ECert
+      | Some (KRsa, k) => if x509_pair_ok e lc k then inr [([lc], k)] else inl ECert
       | Some (KEc, k) =>
-        if marshal_ec_ok e k then (if x509_pair_ok e lc k then inr [(lc, k)] else inl ECert) else inl EKey
+        if marshal_ec_ok e k then (if x509_pair_ok e lc k then inr [([lc], k)] else inl ECert) else inl EKey
       | Some (KOther, _) => inl EKey
       | None => inl EKey
       end
@@ -117,3 +122,8 @@ Definition tls_client_auth (e : env) (o : opts) : result :=
                 c_cache := o_cache o |}
     end
   end.
+
+(* Several calls in one process, the material possibly changed between them (same paths, other content): no state is
+   carried from one call to the next, every call is the single call on the material of its moment. *)
+Definition tls_history (h : list (env * opts)) : list result :=
+  map (fun p => tls_client_auth (fst p) (snd p)) h.
